@@ -133,17 +133,31 @@ pub broadcast proof fn axiom_order_of(s: Set<u64>) ensures is_listing(#[trigger]
 #[verifier::external_body]
 pub broadcast proof fn axiom_order_of_diff(a: Set<u64>, b: Set<u64>) ensures is_listing(#[trigger] order_of_diff(a, b), a.difference(b)) {}
 
-pub struct Ranges<A: Afi> { pub set: Ghost<Set<u64>>, pub _a: core::marker::PhantomData<A> }
+// HashSet<PrefixRange<A>> (the `inner` of Ranges): ghost set of range ids
+pub struct RangeSet<A: Afi> { pub set: Ghost<Set<u64>>, pub _a: core::marker::PhantomData<A> }
+pub struct Ranges<A: Afi> { pub inner: RangeSet<A> }
 pub struct RangeIter<'a, A: Afi> { pub elems: Ghost<Seq<u64>>, pub done: Ghost<Seq<u64>>, pub _a: core::marker::PhantomData<&'a A> }
-impl<A: Afi> Ranges<A> {
+impl<A: Afi> RangeSet<A> {
+    // std HashSet::difference / len / iter / is_empty
     #[verifier::external_body]
-    pub fn is_empty(&self) -> (r: bool) ensures r == is_empty_set(self.set@) { unimplemented!() }
-    #[verifier::external_body]
-    pub fn iter(&self) -> (r: RangeIter<'_, A>) ensures r.elems@ == order_of(self.set@), r.done@ == Seq::<u64>::empty() { unimplemented!() }
-    #[verifier::external_body]
-    pub fn diff<'a>(&'a self, other: &'a Self) -> (r: RangeIter<'a, A>)
+    pub fn difference<'a>(&'a self, other: &'a Self) -> (r: RangeIter<'a, A>)
         ensures r.elems@ == order_of_diff(self.set@, other.set@), r.done@ == Seq::<u64>::empty()
     { unimplemented!() }
+    #[verifier::external_body]
+    pub fn len(&self) -> (r: usize) ensures r == self.set@.len() { unimplemented!() }
+}
+impl<A: Afi> Ranges<A> {
+    pub open spec fn view_set(&self) -> Set<u64> { self.inner.set@ }
+    #[verifier::external_body]
+    pub fn is_empty(&self) -> (r: bool) ensures r == is_empty_set(self.inner.set@) { unimplemented!() }
+    #[verifier::external_body]
+    pub fn iter(&self) -> (r: RangeIter<'_, A>) ensures r.elems@ == order_of(self.inner.set@), r.done@ == Seq::<u64>::empty() { unimplemented!() }
+//@extract id=ranges_diff file=junos-agent/src/policies/mod.rs impl=/^impl<A: Afi> Ranges<A>/ fn=diff rules=R1 vis=pub
+//@sig pub fn diff<'a>(&'a self, other: &'a Self) -> (res: RangeIter<'a, A>)
+//@contract
+        // C01 / C02: what `new.diff(old)` / `old.diff(new)` iterate is exactly the set difference in that direction
+        ensures res.elems@ == order_of_diff(self.inner.set@, other.inner.set@), res.done@ == Seq::<u64>::empty(),   // OBL:C01+C02.ranges.diff_is_the_set_difference
+//@end
 }
 impl<'a, A: Afi> RangeIter<'a, A> {
     pub open spec fn wf(&self) -> bool { self.done@.len() <= self.elems@.len() && self.done@ =~= self.elems@.take(self.done@.len() as int) }
@@ -262,7 +276,7 @@ pub proof fn lemma_term_converges(a: ip::concrete::Afi, old: Option<Set<u64>>, n
     }
 }
 
-pub open spec fn old_set<A: Afi>(d: Differences<A>) -> Option<Set<u64>> { match d.old { Some(o) => Some(o.set@), None => None } }
+pub open spec fn old_set<A: Afi>(d: Differences<A>) -> Option<Set<u64>> { match d.old { Some(o) => Some(o.inner.set@), None => None } }
 
 //@item file=junos-agent/src/policies/mod.rs kind=struct name=Differences sub=/pub(crate) =>pub ;old:=>pub old:;new:=>pub new:/
 
@@ -271,40 +285,40 @@ use super::*;
 broadcast use {lemma_append_rfs_push, axiom_order_of, axiom_order_of_diff};
 
 impl<'a, A: Afi> Differences<'a, A> {
-//@extract id=differences_write_xml file=junos-agent/src/policies/load.rs impl=/impl<A: Afi> WriteXml for Differences<'_, A>/ fn=write_xml rules=R1,R7,R17,R18 r7map=result
+//@extract id=differences_write_xml file=junos-agent/src/policies/load.rs impl=/impl<A: Afi> WriteXml for Differences<'_, A>/ fn=write_xml rules=R1,R7,R17,R18,R29 r7map=result
 //@+ sub=/write_route_filter::<_, A>=>write_route_filter::<A>/
 //@sig pub fn write_xml(&self, writer: &mut Writer) -> (res: Result<(), WriteError>)
 //@contract
-        ensures res is Ok ==> final(writer).nodes@ == term_emitted(old(writer).nodes@, A::spec_afi(), old_set(*self), self.new.set@),   // OBL:C01.term.emitted_exactly
+        ensures res is Ok ==> final(writer).nodes@ == term_emitted(old(writer).nodes@, A::spec_afi(), old_set(*self), self.new.inner.set@),   // OBL:C01.term.emitted_exactly
 //@closure 1
             -> (r: Result<(), WriteError>)
             requires writer.nodes@ == Seq::<Node>::empty(),
             ensures r is Ok ==> final(writer).nodes@ == term_children(A::spec_afi(),
-                if is_empty_set(self.new.set@) { None } else { Some((dels_of(old_set(*self), self.new.set@), adds_of(old_set(*self), self.new.set@))) })   // OBL:C02.term.children
+                if is_empty_set(self.new.inner.set@) { None } else { Some((dels_of(old_set(*self), self.new.inner.set@), adds_of(old_set(*self), self.new.inner.set@))) })   // OBL:C02.term.children
 //@closure 2
                     -> (r: Result<(), WriteError>)
                     requires writer.nodes@ == Seq::<Node>::empty(),
-                    ensures r is Ok ==> final(writer).nodes@ == from_children(A::spec_afi(), dels_of(old_set(*self), self.new.set@), adds_of(old_set(*self), self.new.set@))   // OBL:C02.term.from_children
+                    ensures r is Ok ==> final(writer).nodes@ == from_children(A::spec_afi(), dels_of(old_set(*self), self.new.inner.set@), adds_of(old_set(*self), self.new.inner.set@))   // OBL:C02.term.from_children
 //@loop 1
                             invariant
-                                self.old is None, it__0.wf(), it__0.elems@ == order_of(self.new.set@),
+                                self.old is None, it__0.wf(), it__0.elems@ == order_of(self.new.inner.set@),
                                 writer.nodes@ == append_rfs(family_base(A::spec_afi()), it__0.done@, false),     // OBL:C02.term.adds_only_new
                             ensures
-                                writer.nodes@ == append_rfs(family_base(A::spec_afi()), order_of(self.new.set@), false),
+                                writer.nodes@ == append_rfs(family_base(A::spec_afi()), order_of(self.new.inner.set@), false),
                             decreases it__0.elems@.len() - it__0.done@.len(),
 //@loop 2
                             invariant
-                                self.old matches Some(o) && it__1.elems@ == order_of_diff(o.set@, self.new.set@), it__1.wf(),
+                                self.old matches Some(o) && it__1.elems@ == order_of_diff(o.inner.set@, self.new.inner.set@), it__1.wf(),
                                 writer.nodes@ == append_rfs(family_base(A::spec_afi()), it__1.done@, true),      // OBL:C02.term.deletes_old_minus_new
                             ensures
-                                writer.nodes@ == append_rfs(family_base(A::spec_afi()), dels_of(old_set(*self), self.new.set@), true),
+                                writer.nodes@ == append_rfs(family_base(A::spec_afi()), dels_of(old_set(*self), self.new.inner.set@), true),
                             decreases it__1.elems@.len() - it__1.done@.len(),
 //@loop 3
                             invariant
-                                self.old matches Some(o) && it__2.elems@ == order_of_diff(self.new.set@, o.set@), it__2.wf(),
-                                writer.nodes@ == append_rfs(append_rfs(family_base(A::spec_afi()), dels_of(old_set(*self), self.new.set@), true), it__2.done@, false),  // OBL:C02.term.adds_new_minus_old
+                                self.old matches Some(o) && it__2.elems@ == order_of_diff(self.new.inner.set@, o.inner.set@), it__2.wf(),
+                                writer.nodes@ == append_rfs(append_rfs(family_base(A::spec_afi()), dels_of(old_set(*self), self.new.inner.set@), true), it__2.done@, false),  // OBL:C02.term.adds_new_minus_old
                             ensures
-                                writer.nodes@ == from_children(A::spec_afi(), dels_of(old_set(*self), self.new.set@), adds_of(old_set(*self), self.new.set@)),
+                                writer.nodes@ == from_children(A::spec_afi(), dels_of(old_set(*self), self.new.inner.set@), adds_of(old_set(*self), self.new.inner.set@)),
                             decreases it__2.elems@.len() - it__2.done@.len(),
 //@closure 3
                     -> (r: Result<(), WriteError>)
@@ -349,8 +363,8 @@ pub open spec fn policy_children(u: Update) -> Seq<Node> {
         Update::Delete { .. } => Seq::<Node>::empty().push(name_leaf(u)),
         Update::Update { ipv4, ipv6, .. } =>
             term_emitted(
-                term_emitted(Seq::<Node>::empty().push(name_leaf(u)), ip::concrete::Afi::Ipv4, old_set(ipv4), ipv4.new.set@),
-                ip::concrete::Afi::Ipv6, old_set(ipv6), ipv6.new.set@,
+                term_emitted(Seq::<Node>::empty().push(name_leaf(u)), ip::concrete::Afi::Ipv4, old_set(ipv4), ipv4.new.inner.set@),
+                ip::concrete::Afi::Ipv6, old_set(ipv6), ipv6.new.inner.set@,
             ).push(then_node("reject"@)),
     }
 }
@@ -369,8 +383,8 @@ pub open spec fn apply_update(pre: Option<PolicySt>, u: Update) -> Option<Policy
     match u {
         Update::Delete { .. } => None,
         Update::Update { ipv4, ipv6, .. } => Some(PolicySt {
-            inet: apply_term_edit(match pre { Some(p) => p.inet, None => None }, ip::concrete::Afi::Ipv4, term_edit(old_set(ipv4), ipv4.new.set@)),
-            inet6: apply_term_edit(match pre { Some(p) => p.inet6, None => None }, ip::concrete::Afi::Ipv6, term_edit(old_set(ipv6), ipv6.new.set@)),
+            inet: apply_term_edit(match pre { Some(p) => p.inet, None => None }, ip::concrete::Afi::Ipv4, term_edit(old_set(ipv4), ipv4.new.inner.set@)),
+            inet6: apply_term_edit(match pre { Some(p) => p.inet6, None => None }, ip::concrete::Afi::Ipv6, term_edit(old_set(ipv6), ipv6.new.inner.set@)),
             reject: true,
         }),
     }
@@ -392,16 +406,16 @@ pub proof fn lemma_update_converges(u: Update)
         let ipv4 = u->ipv4; let ipv6 = u->ipv6;
         let post = apply_update(fetched_policy(old_set(ipv4), old_set(ipv6)), u);
         &&& post is Some
-        &&& accepted(post->Some_0.inet) =~= ipv4.new.set@ && accepted(post->Some_0.inet6) =~= ipv6.new.set@   // OBL:C01.policy.accepts_exactly_evaluated
+        &&& accepted(post->Some_0.inet) =~= ipv4.new.inner.set@ && accepted(post->Some_0.inet6) =~= ipv6.new.inner.set@   // OBL:C01.policy.accepts_exactly_evaluated
         &&& policy_readable(post->Some_0)                                                                    // OBL:C01.policy.readable_by_agent
         &&& post->Some_0.reject                                                                              // OBL:C02.policy.ends_in_reject
-        &&& (old_set(ipv4) == Some(ipv4.new.set@) && old_set(ipv6) == Some(ipv6.new.set@)
+        &&& (old_set(ipv4) == Some(ipv4.new.inner.set@) && old_set(ipv6) == Some(ipv6.new.inner.set@)
                 ==> post == fetched_policy(old_set(ipv4), old_set(ipv6)))                                    // OBL:C01.policy.idempotent
     }),
 {
     let ipv4 = u->ipv4; let ipv6 = u->ipv6;
-    lemma_term_converges(ip::concrete::Afi::Ipv4, old_set(ipv4), ipv4.new.set@);
-    lemma_term_converges(ip::concrete::Afi::Ipv6, old_set(ipv6), ipv6.new.set@);
+    lemma_term_converges(ip::concrete::Afi::Ipv4, old_set(ipv4), ipv4.new.inner.set@);
+    lemma_term_converges(ip::concrete::Afi::Ipv6, old_set(ipv6), ipv6.new.inner.set@);
 }
 pub proof fn lemma_delete_removes(u: Update, pre: Option<PolicySt>)
     requires u is Delete,
@@ -424,7 +438,7 @@ impl<'u> Update<'u> {
         ensures res.name@ == "policy-statement"@, res.attrs@ == policy_attrs(*self),                    // OBL:C02+C03.policy.delete_or_comment_attr
                 res.w.nodes@ == old(writer).nodes@, final(writer).nodes@ == final(res.w).nodes@,
 //@end
-//@extract id=update_write_xml file=junos-agent/src/policies/load.rs impl=/impl WriteXml for Update<'_>/ fn=write_xml rules=R1,R7,R17 r7map=result
+//@extract id=update_write_xml file=junos-agent/src/policies/load.rs impl=/impl WriteXml for Update<'_>/ fn=write_xml rules=R1,R7,R17,R29 r7map=result
 //@sig pub fn write_xml(&self, writer: &mut Writer) -> (res: Result<(), WriteError>)
 //@contract
         ensures res is Ok ==> final(writer).nodes@ == old(writer).nodes@.push(config_node(*self)),          // OBL:C02.update.payload_exactly
